@@ -23,6 +23,8 @@ func main() {
 	ssaDump := flag.String("ssa", "", "print SSA of function key(s)")
 	propFlag := flag.String("prop", "", "verify every function and lemma tagged with this property")
 	only := flag.String("only", "", "development aid (never used by `check`): solve only the obligations whose name contains this substring; the others are reported as skipped")
+	replayFlag := flag.Bool("replay", false, "with -func: replay every obligation that failed with a model on the real code")
+	replayOb := flag.String("replayob", "", "with -func: do not solve; replay the obligation with this name (or name suffix, e.g. '#safe:index[1]') directly")
 	flag.Parse()
 	eng, err := loadEngine(*repo, findSpecFiles(*trusted))
 	if err != nil {
@@ -117,8 +119,15 @@ func main() {
 			}
 			fmt.Printf("-only %q: %d obligations skipped (NOT verified)\n", *only, n)
 		}
+		if *replayOb != "" {
+			devReplayOne(eng, fc, *replayOb, *repo, *out) // replay_dev.go
+			continue
+		}
 		fc.solveAll(opts, k)
 		report(fc)
+		if *replayFlag {
+			devReplay(eng, fc, *repo, *out) // replay_dev.go
+		}
 	}
 	for _, s := range eng.staleErrs {
 		fmt.Println(s)
